@@ -553,6 +553,29 @@ theorem stageProv_fields (E : Env α) (o : Options) (t8 : TableCollection α) :
   unfold stageProv
   split_ifs <;> exact ⟨rfl, rfl, rfl⟩
 
+/-- rows re-labelled with new nodes and decoded metadata, against the three input arrays -/
+theorem zip3_lemma (f : Bytes → Option (α × α)) :
+    ∀ (ms : List (MutRow α)) (mds : List Bytes) (ns : List Nat) (mv : List (α × α)),
+      mds.map f = mv.map some →
+      List.zipWith (fun (m' : MutRow α) n => ((m'.site, n, m'.derivedState), f m'.metadata))
+          (setCol MutRow.setMetadata ms mds) ns =
+        List.zipWith (fun (mn : MutRow α × Nat) v => ((mn.1.site, mn.2, mn.1.derivedState), some v))
+          (ms.zip ns) mv
+  | [], _, _, _, _ => by simp [setCol]
+  | _ :: _, [], _, mv, h => by
+    cases mv with
+    | nil => simp [setCol]
+    | cons _ _ => simp at h
+  | m :: ms, b :: mds, [], _, _ => by simp [setCol]
+  | m :: ms, b :: mds, n :: ns, [], h => by simp at h
+  | m :: ms, b :: mds, n :: ns, v :: mv, h => by
+    simp only [List.map_cons, List.cons.injEq] at h
+    have ih := zip3_lemma f ms mds ns mv h.2
+    simp only [setCol, List.zipWith_cons_cons, List.zip_cons_cons] at ih ⊢
+    rw [ih]
+    simp [MutRow.setMetadata, h.1]
+
+
 /-! ### the model as a program over the permitted writes -/
 
 theorem reach_single {W : List WOp} {a b : TableCollection α} (op : WOp) (hop : op ∈ W) (h : Step op a b) :
